@@ -318,6 +318,7 @@ pub fn run(cx: &mut Ctx) {
 	offers.push(vec![0, 0, 0, 0, 0, 4, 0, 0]);
 	offers.push(vec![3, 1, 2, 2, 3, 4, 2, 1]);
 	let offer_bytes = run_family(cx, fx, "offer", "offer", &offers, 1 << 32);
+	cx.lap("b12.offer");
 
 	// ---- invoice requests -----------------------------------------------------------------
 	// offers that are not expired and valid; all request settings
@@ -327,12 +328,14 @@ pub fn run(cx: &mut Ctx) {
 			(2, vec![0, 1, 2, 3]),
 			(3, if thorough { vec![0, 1, 2, 3, 4] } else { vec![0, 2, 4] }),
 			(4, if thorough { vec![0, 1, 2, 3, 4] } else { vec![0, 3] }),
-			(5, vec![0, 1]),
+			(5, if thorough { vec![0, 1] } else { vec![0] }),
 			(6, vec![0]),
 			(7, vec![0]),
+			(8, if thorough { vec![0, 1, 2] } else { vec![0, 1] }),
 		],
 	);
 	let _ = run_family(cx, fx, "invreq", "invreq", &req_cfgs, 2 << 32);
+	cx.lap("b12.invreq");
 
 	// ---- invoices --------------------------------------------------------------------------
 	// 12 key/path modes x {no amount, amount} x {one, bounded quantity} with a rich request
@@ -353,12 +356,14 @@ pub fn run(cx: &mut Ctx) {
 	inv_cfgs.push(vec![0, 0, 2, 0, 0, 0, 0, 0, 0, 0, 0, 0, 0, 0, 0, 0, 0, 3]);
 	inv_cfgs.push(vec![3, 2, 0, 2, 0, 1, 2, 1, 0, 1, 2, 1, 0, 1, 2, 4, 1, 3]);
 	let inv_bytes = run_family(cx, fx, "invoice", "invoice", &inv_cfgs, 3 << 32);
+	cx.lap("b12.invoice");
 
 	// ---- refunds ---------------------------------------------------------------------------
 	let mut refunds = product(&sizes("refund"), &[(5, vec![0, 1, 2, 3])]);
 	refunds.push(vec![0, 0, 0, 0, 0, 4, 0, 0]);
 	refunds.push(vec![2, 2, 3, 2, 3, 4, 1, 1]);
 	let refund_bytes = run_family(cx, fx, "refund", "refund", &refunds, 4 << 32);
+	cx.lap("b12.refund");
 	// invoice options at positions 8.. : paths, relative expiry, fallbacks, mpp, created_at
 	let ic_small: Vec<(usize, Vec<u8>)> =
 		if thorough { vec![(12, vec![0, 1, 2])] } else { vec![(9, vec![0, 3]), (10, vec![0, 4]), (12, vec![0, 2])] };
@@ -369,6 +374,7 @@ pub fn run(cx: &mut Ctx) {
 	rinv_cfgs.push(vec![2, 0, 0, 0, 0, 0, 1, 0, 0, 0, 0, 0, 3, 0]);
 	rinv_cfgs.push(vec![2, 2, 0, 0, 0, 0, 1, 0, 1, 2, 4, 1, 3, 1]);
 	let rinv_bytes = run_family(cx, fx, "refund-invoice", "refund_invoice", &rinv_cfgs, 5 << 32);
+	cx.lap("b12.refund-invoice");
 
 	// ---- static invoices --------------------------------------------------------------------
 	let mut r = vec![
@@ -386,6 +392,7 @@ pub fn run(cx: &mut Ctx) {
 	let mut st_cfgs = st_cfgs;
 	st_cfgs.push(vec![3, 1, 0, 0, 0, 0, 0, 0, 0, 0, 0, 0, 3, 1]);
 	let st_bytes = run_family(cx, fx, "static", "static", &st_cfgs, 6 << 32);
+	cx.lap("b12.static");
 
 	// ---- single-bit flips --------------------------------------------------------------------
 	let mut flip_jobs: Vec<(Kind, Vec<u8>, Value)> = Vec::new();
@@ -418,8 +425,8 @@ pub fn run(cx: &mut Ctx) {
 		}
 	}
 	let q = if thorough { 8 } else { 1 };
-	pick(&inv_cfgs, &inv_bytes, "invoice", Kind::Invoice, 797 / q, &mut flip_jobs);
-	pick(&rinv_cfgs, &rinv_bytes, "refund-invoice", Kind::Invoice, if thorough { 997 } else { 211 }, &mut flip_jobs);
+	pick(&inv_cfgs, &inv_bytes, "invoice", Kind::Invoice, if thorough { 97 } else { 1201 }, &mut flip_jobs);
+	pick(&rinv_cfgs, &rinv_bytes, "refund-invoice", Kind::Invoice, if thorough { 997 } else { 577 }, &mut flip_jobs);
 	pick(&st_cfgs, &st_bytes, "static", Kind::StaticInvoice, if thorough { 1499 } else { 97 }, &mut flip_jobs);
 	pick(&offers, &offer_bytes, "offer", Kind::Offer, 2399 / q, &mut flip_jobs);
 	pick(&refunds, &refund_bytes, "refund", Kind::Refund, 911 / q, &mut flip_jobs);
@@ -434,7 +441,7 @@ pub fn run(cx: &mut Ctx) {
 		let mut st = Stats::default();
 		let mut out = Vec::new();
 		b12::check_bit_flips(*kind, bytes, spec, &mut st, &mut out);
-		out.truncate(256);
+		crate::dedup_by_identity(&mut out);
 		Some((st, out))
 	});
 	for (k, r) in res.into_iter().enumerate() {
@@ -449,6 +456,7 @@ pub fn run(cx: &mut Ctx) {
 			Err(p) => cli_die(&format!("harness panic in bit flips: {}", p)),
 		}
 	}
+	cx.lap("b12.flips");
 	if let Some((k, b, _)) = flip_jobs.iter().find(|(k, _, _)| *k == Kind::Invoice) {
 		cx.samples.push(json!({"family": "bolt12-bitflip", "kind": k.name(), "original": hex(b), "flips": b.len() * 8}));
 	}
@@ -472,7 +480,7 @@ pub fn run(cx: &mut Ctx) {
 			Ok(o) => b12::check_altered_offers(fx, &o, &oc, &mut st, &mut out),
 			Err(e) => cli_die(&format!("altered-offer base offer not buildable: {}", e)),
 		}
-		out.truncate(256);
+		crate::dedup_by_identity(&mut out);
 		(st, out)
 	});
 	for (k, r) in res.into_iter().enumerate() {
@@ -487,6 +495,7 @@ pub fn run(cx: &mut Ctx) {
 		}
 	}
 
+	cx.lap("b12.altered-offers");
 	// ---- altered, re-signed invoices ----------------------------------------------------------
 	let mut alt_inv: Vec<(&str, Vec<u8>)> = vec![
 		("invoice", vec![0, 0, 2, 2, 0, 1, 2, 1, 0, 0, 2, 1, 0, 0, 2, 1, 1, 0]),
@@ -509,7 +518,7 @@ pub fn run(cx: &mut Ctx) {
 			},
 			o => cli_die(&format!("altered-invoice base {} {:?} not buildable: {:?}", fam, c, o.map(|x| x.map(|b| b.len())))),
 		}
-		out.truncate(256);
+		crate::dedup_by_identity(&mut out);
 		(st, out)
 	});
 	for (k, r) in res.into_iter().enumerate() {
@@ -524,6 +533,7 @@ pub fn run(cx: &mut Ctx) {
 		}
 	}
 
+	cx.lap("b12.altered-invoices");
 	// ---- arbitrary byte streams ------------------------------------------------------------------
 	// all byte strings of length <= 2 (thorough: <= 3) and every truncation of the selected objects
 	let maxlen = if thorough { 3 } else { 2 };
